@@ -286,3 +286,122 @@ def listed_ids(segs):
             for kind, ident in META_ID.findall(t):
                 (chg if kind == "Chg" else com).append(ident)
     return chg, com
+
+
+# ------------------------------------------------------------------------------------------------
+# per-character view with formatting and run identity (for edit generation and the engine oracles)
+# ------------------------------------------------------------------------------------------------
+
+def onoff_true(v):
+    return v is not None and v in ("", "1", "true", "on")
+
+
+def para_chars_ex(p):
+    """list of dicts: c, state (plain/ins/del), rid, comments (frozenset), fmt (b,i,rest,empty), marked (bold or
+    italic markers are rendered around the run), run (index of the run in document order inside the paragraph),
+    hidden (PAGE/NUMPAGES result)."""
+    out = []
+    open_c = []
+    fld = {"in": False, "instr": "", "hide": False}
+    run_no = [0]
+
+    def do_run(run, state, rid, field_logic=True):
+        run_no[0] += 1
+        hidden = False
+        if field_logic:
+            for a in run["ch"]:
+                if a["k"] == "fld":
+                    if a["type"] == "begin":
+                        fld.update({"in": True, "instr": "", "hide": False})
+                    elif a["type"] == "separate":
+                        if is_page_instr(fld["instr"]):
+                            fld["hide"] = True
+                    elif a["type"] == "end":
+                        fld.update({"in": False, "instr": "", "hide": False})
+            if fld["in"] and not fld["hide"]:
+                for a in run["ch"]:
+                    if a["k"] == "instr":
+                        fld["instr"] += a["s"]
+            hidden = fld["hide"]
+        f = fmt_of(run)
+        marked = onoff_true(run.get("b")) or onoff_true(run.get("i"))
+        for a in run["ch"]:
+            k = a["k"]
+            if k in ("t", "dt"):
+                cs = [(ch if ch != "\t" else " ", "text") for ch in a["s"]]
+            elif k == "tab":
+                cs = [(" ", "tab")]
+            elif k in ("br", "cr"):
+                cs = [("\n", k)]
+            else:
+                continue
+            for ch, kind in cs:
+                out.append({"c": ch, "kind": kind, "state": state, "rid": rid, "comments": frozenset(open_c), "fmt": f,
+                            "marked": marked, "run": run_no[0], "hidden": hidden})
+
+    for n in p["nodes"]:
+        k = n["k"]
+        if k == "r":
+            do_run(n["run"], "plain", None)
+        elif k == "ins":
+            for c in n["ch"]:
+                if c["k"] == "r":
+                    do_run(c["run"], "ins", n["id"])
+                elif c["k"] == "cs":
+                    open_c.append(c["id"])
+                elif c["k"] == "ce" and c["id"] in open_c:
+                    open_c.remove(c["id"])
+        elif k == "del":
+            for r in n["runs"]:
+                do_run(r, "del", n["id"], field_logic=False)
+        elif k == "cs":
+            open_c.append(n["id"])
+        elif k == "ce" and n["id"] in open_c:
+            open_c.remove(n["id"])
+    return out
+
+
+def all_paragraphs(doc):
+    """[(story index, paragraph)] of the stories adeu reads, vMerge-continue cells skipped"""
+    out = []
+    for si, blocks in enumerate(active_stories(doc)):
+        for p in iter_paragraphs(blocks):
+            out.append((si, p))
+    return out
+
+
+def body_story_index(doc):
+    n = 0
+    hs = doc.get("headers", [])
+    for ty in ("default", "first", "even"):
+        if ty == "first" and not doc.get("title_pg"):
+            continue
+        if ty == "even" and not doc.get("even_odd"):
+            continue
+        if any(s["type"] == ty for s in hs):
+            n += 1
+    return n
+
+
+def max_rev_id(doc, body_only=True):
+    m = 0
+    stories = [doc["body"]] if body_only else [doc["body"]] + [s["blocks"] for s in doc.get("headers", []) + doc.get("footers", [])]
+    for blocks in stories:
+        for p in iter_paragraphs(blocks, expand_vmerge=True):
+            for n in p["nodes"]:
+                if n["k"] in ("ins", "del"):
+                    try:
+                        m = max(m, int(n["id"]))
+                    except (TypeError, ValueError):
+                        pass
+    return m
+
+
+def max_comment_id(doc):
+    m = 0
+    for c in doc.get("comments", []):
+        try:
+            m = max(m, int(c["id"]))
+        except (TypeError, ValueError):
+            pass
+    return m
